@@ -98,6 +98,26 @@ def source_fingerprint(pkg_dir):
     return fp
 
 
+LEARNER_FILES = {"ndl.py", "ndl_parallel.pyx", "ndl_parallel.pxd", "ndl_openmp.pyx", "error_codes.pxd", "preprocess.py",
+                 "io.py", "count.py", "__init__.py"}
+# source files a property's behaviour can depend on (escalation looks at these only)
+RELEVANT = {
+    "C01": LEARNER_FILES, "C02": LEARNER_FILES, "C13": LEARNER_FILES,
+    "C03": LEARNER_FILES | {"wh.py"}, "C04": LEARNER_FILES | {"wh.py"}, "C05": LEARNER_FILES | {"wh.py"},
+    "C17": LEARNER_FILES | {"wh.py"}, "C16": LEARNER_FILES | {"wh.py"}, "C08": LEARNER_FILES | {"wh.py"},
+    "C14": LEARNER_FILES | {"wh.py"},
+    "C06": {"preprocess.py", "ndl_parallel.pyx", "ndl_parallel.pxd", "ndl_openmp.pyx", "error_codes.pxd", "__init__.py"},
+    "C07": {"io.py", "count.py", "ndl.py", "preprocess.py", "__init__.py"},
+    "C09": {"preprocess.py", "io.py", "__init__.py"}, "C10": {"preprocess.py", "io.py", "__init__.py"},
+    "C11": {"count.py", "io.py", "__init__.py"},
+    "C12": {"activation.py", "ndl.py", "io.py", "__init__.py"},
+    "C15": LEARNER_FILES | {"activation.py"},
+    "C18": {"correlation.py", "correlation_openmp.pyx", "__init__.py"},
+    "C19": {"corpus.py", "io.py", "__init__.py"},
+    "C20": {"preprocess.py", "count.py", "__init__.py"},
+}
+
+
 def source_changed(pkg_dir):
     """Files of the tree under test whose normalised content differs from the committed baseline."""
     try:
@@ -284,7 +304,8 @@ def ensure_built():
 def scan_forbidden():
     """No Admitted/Axiom/Parameter/... anywhere in the development."""
     hits = []
-    for path in sorted(glob.glob(os.path.join(COQ, "theories", "**", "*.v"), recursive=True)):
+    for path in sorted(glob.glob(os.path.join(COQ, "theories", "**", "*.v"), recursive=True) +
+                       glob.glob(os.path.join(COQ, "src", "*.v"))):
         src = open(path).read()
         # drop comments (non-nested is enough for our sources; nested handled by loop)
         prev = None
@@ -331,6 +352,110 @@ def check_props(prop_id):
         if bad:
             res["ok"] = False
     return res
+
+
+
+# ------------------------------------------------------------------------------------------------------------------
+# source-derived models: tools/py2coq.py translates a few pure functions of the tree under test into MiniPy terms
+# (coq/theories/MiniPy.v); coq/src/Src<Group>Proofs.v / Src<Group>Props.v hold the theorems about the generated terms and are
+# re-compiled against the term generated from the CURRENT source on every run.
+SRC_GROUPS = {"Slice": "slice_list_src", "Band": "bandsample_loop_src"}
+
+
+def source_derived(sc, group, cases_v=None):
+    """Returns dict(translated, reason, ok, theorems=[{name, assumptions, source_derived}], output, cases_output).
+    cases_v: optional Coq text (after the imports) evaluated against the generated term (vm_compute)."""
+    term = SRC_GROUPS[group]
+    d = os.path.join(sc.dir, "srcgen-" + group)
+    os.makedirs(d, exist_ok=True)
+    res = {"group": group, "term": term, "translated": False, "reason": None, "ok": False, "theorems": [], "output": "",
+           "cases_output": None}
+    props_src = os.path.join(COQ, "src", "Src%sProps.v" % group)
+    names = re.findall(r"^\s*Theorem\s+([A-Za-z0-9_']+)", open(props_src).read(), re.M)
+    res["theorems"] = [{"name": n, "assumptions": None, "source_derived": True} for n in names]
+    r = subprocess.run([sys.executable, os.path.join(VERIF, "tools", "py2coq.py"), os.path.join(sc.dir, "pyndl"),
+                        os.path.join(d, "GenSrc.v")], stdout=subprocess.PIPE, stderr=subprocess.STDOUT)
+    try:
+        report = json.loads(r.stdout.decode().strip().splitlines()[-1])[term]
+    except Exception:
+        res["reason"] = "translator failed: " + r.stdout.decode(errors="replace")[-500:]
+        return res
+    res["translated"] = bool(report.get("translated"))
+    res["reason"] = report.get("reason")
+    if not res["translated"]:
+        return res
+    for name in ("Src%sProofs.v" % group, "Src%sProps.v" % group):
+        shutil.copy(os.path.join(COQ, "src", name), d)
+    if cases_v is not None:
+        with open(os.path.join(d, "SrcCases.v"), "w") as f:
+            f.write("From Coq Require Import ZArith List QArith Qcanon.\nFrom PV Require Import MiniPy.\n"
+                    "From PVGen Require Import GenSrc.\nImport ListNotations.\nOpen Scope Z_scope.\n" + cases_v)
+    out_all = ""
+    files = ["GenSrc.v", "Src%sProofs.v" % group, "Src%sProps.v" % group] + (["SrcCases.v"] if cases_v is not None else [])
+    for name in files:
+        r = subprocess.run(["timeout", "600", "coqc", "-w", "-overriding-logical-loadpath,-notation-overridden",
+                            "-Q", os.path.join(COQ, "theories"), "PV", "-Q", ".", "PVGen", name],
+                           cwd=d, stdout=subprocess.PIPE, stderr=subprocess.STDOUT)
+        out = r.stdout.decode(errors="replace")
+        if name == "SrcCases.v":
+            res["cases_output"] = out
+            if r.returncode != 0:
+                res["cases_output"] = "coqc failed: " + out[-1500:]
+            continue
+        out_all += out
+        if r.returncode != 0:
+            res["output"] = out_all[-3000:]
+            if name == "GenSrc.v" or cases_v is None:
+                return res
+            # the proofs broke: still evaluate the cases against the generated term
+            continue
+        if name.endswith("Props.v"):
+            blocks = re.split(r"(?=^Closed under the global context|^Axioms:)", out, flags=re.M)
+            blocks = [b for b in blocks if b.startswith("Closed under") or b.startswith("Axioms:")]
+            if len(blocks) == len(names):
+                ok = True
+                for t, b in zip(res["theorems"], blocks):
+                    axs = [] if b.startswith("Closed under") else \
+                        re.findall(r"^([A-Za-z_][A-Za-z0-9_.']*)\s*:", b[len("Axioms:"):], re.M)
+                    t["assumptions"] = axs
+                    bad = [a for a in axs if a not in ALLOWED_AXIOMS]
+                    if bad:
+                        t["disallowed"] = bad
+                        ok = False
+                res["ok"] = ok
+    res["output"] = out_all[-3000:]
+    return res
+
+
+
+def parse_coq_list(out):
+    """the value printed by `Eval vm_compute in (... : list (list Z))` -> list of lists of ints"""
+    m = re.search(r"=\s*(\[.*\])\s*:\s*list", out, re.S)
+    if not m:
+        return None
+    txt = m.group(1).replace("%Z", "").replace(";", ",")
+    txt = re.sub(r"\s+", " ", txt)
+    import ast
+    try:
+        return ast.literal_eval(txt)
+    except Exception:
+        return None
+
+
+def fold_source_derived(ctx, sd, what):
+    """Account for a group of source-derived theorems in the evidence.  They are an additional tie (the source text
+    itself, translated); the deciding tie of every property is the correspondence of the hand-written model, so a
+    source-derived theorem that can no longer be re-established is recorded (obligations > discharged, NOTE line) and
+    the function-level correspondence of the same check decides."""
+    ctx.props["theorems"] = ctx.props["theorems"] + sd["theorems"]
+    ctx.rep.note("source_derived_" + sd["group"].lower(), {
+        "function": what, "translated_from_current_source": sd["translated"], "translator_refusal": sd["reason"],
+        "theorems_rechecked_against_generated_term": sd["ok"],
+        "coqc_output_tail": None if sd["ok"] else sd["output"][-1200:]})
+    if not sd["ok"]:
+        log("NOTE: the source-derived theorems about %s could not be re-established for the current source (%s); "
+            "the correspondence of the hand-written model decides" % (
+                what, ("translator: " + str(sd["reason"])) if not sd["translated"] else "proofs no longer compile"))
 
 
 def _big_stack():
